@@ -704,13 +704,13 @@ func fieldAddrName(v ssa.Value) (typ string, field string, base ssa.Value, ok bo
 		if st == nil {
 			return
 		}
-		return typeShort(x.X.Type()), st.Field(x.Field).Name(), x.X, true
+		return typeShort(x.X.Type()), refField(x.X.Type(), x.Field), x.X, true
 	case *ssa.Field:
 		st := derefStruct(x.X.Type())
 		if st == nil {
 			return
 		}
-		return typeShort(x.X.Type()), st.Field(x.Field).Name(), x.X, true
+		return typeShort(x.X.Type()), refField(x.X.Type(), x.Field), x.X, true
 	}
 	return
 }
@@ -1198,4 +1198,31 @@ func refName(p *ssa.Parameter) string {
 		}
 	}
 	return p.Name()
+}
+
+// ---------- field roles, independent of today's spelling ----------
+
+//go:embed fields_ref.json
+var fieldsRefJSON []byte
+
+var fieldsRef map[string][]string
+
+// refField: the name the i-th field of the (pointer to a) named struct type t had on the reference tree (fields_ref.json:
+// type → field names by index). The rules speak of "the high-water mark of the writer", "the reader list of the manager"
+// by field name; an unexported field's name is no more part of a property than a parameter's. A type that is not in the
+// table, or whose number of fields changed, falls back to today's names.
+func refField(t types.Type, i int) string {
+	st := derefStruct(t)
+	if st == nil || i < 0 || i >= st.NumFields() {
+		return ""
+	}
+	if fieldsRef == nil {
+		fieldsRef = map[string][]string{}
+		_ = json.Unmarshal(fieldsRefJSON, &fieldsRef)
+	}
+	k := strings.TrimPrefix(typeShort(t), "*")
+	if names, ok := fieldsRef[k]; ok && len(names) == st.NumFields() {
+		return names[i]
+	}
+	return st.Field(i).Name()
 }
